@@ -156,6 +156,11 @@ type lcell struct {
 	// CS / RS (which is left out when 1). Either another spelling of the same number
 	// ("1" written out, "+2", "007") or, in a table marked Undef, a value outside 1..1024.
 	RawCS, RawRS string
+	// docx (structure.go): the paragraphs Paras[BoxAt : BoxAt+BoxN] are written inside a
+	// block-level container of kind Box (sdt, customXml, ...) that is a child of the w:tc.
+	// "" = every paragraph is a direct child of the cell.
+	Box         string
+	BoxAt, BoxN int
 }
 
 type ltable struct {
@@ -945,6 +950,9 @@ func (p *lpara) wantText() string {
 type ptok struct {
 	Tok  string
 	Wrap string
+	// CellBox: the kind of block-level container of a table cell the token's paragraph is
+	// written in ("" = none)
+	CellBox string
 }
 
 // tokens lists the visible text tokens of the paragraph in source order.
@@ -956,7 +964,7 @@ func (p *lpara) tokens() []ptok {
 		}
 		for _, it := range ru.Items {
 			if it.Kind == "t" {
-				out = append(out, ptok{it.Tok, ru.Wrap})
+				out = append(out, ptok{Tok: it.Tok, Wrap: ru.Wrap})
 			}
 		}
 	}
@@ -1003,7 +1011,12 @@ func (t *ltable) tokens() []ptok {
 		for b := 0; b < t.C; b++ {
 			if c := t.Cells[[2]int{a, b}]; c != nil {
 				for i := range c.Paras {
-					out = append(out, c.Paras[i].tokens()...)
+					for _, t := range c.Paras[i].tokens() {
+						if c.Box != "" && i >= c.BoxAt && i < c.BoxAt+c.BoxN {
+							t.CellBox = c.Box
+						}
+						out = append(out, t)
+					}
 				}
 			}
 		}
@@ -1034,6 +1047,9 @@ func (d *ldoc) canon() string {
 						fmt.Fprintf(&b, "%d%s.%d%s.%d.%v.%q", cell.RS, cell.RawRS, cell.CS, cell.RawCS, len(cell.Paras), cell.Nested != nil, cell.wantText())
 						for i := range cell.Paras {
 							b.WriteString("~" + cell.Paras[i].Fam + cell.Paras[i].Via)
+						}
+						if cell.Box != "" {
+							fmt.Fprintf(&b, "<%s@%d+%d>", cell.Box, cell.BoxAt, cell.BoxN)
 						}
 						b.WriteString(",")
 					}
